@@ -73,7 +73,8 @@ def run(tier):
         ck.cov["evaluations"] += nev
     _apalache(ck)
     ck.cov["traces_validated_against_impl"] = ntr
-    ck.cov["distinct_nontrivial"] = nsplits
+    if not ck.cov["distinct_nontrivial"]:
+        ck.cov["distinct_nontrivial"] = nsplits
     ck.cov["exhaustive"] = True
     ck.cov["rule"] = ("TLC: every reachable (absorbed T, last update n) with T <= Tmax for BLAKE2b (lazy, 128, unkeyed/keyed) and Poly1305 (eager, 16); "
                       "harness: every 2-way split of every length 0..%d and every 3-way split of every length 0..%d (empty pieces included) on 10 hash/MAC interfaces, "
